@@ -741,7 +741,7 @@ impl Connection {
     }
     /// Notifies the connection of incoming data.
     ///
-    /// `buffer` must have at least size `MAX_PAYLOAD`.
+    /// `buffer` must have at least size `MAX_PACKETSIZE`.
     pub fn feed<'a, B, CB, W>(
         &mut self,
         cb: &mut CB,
